@@ -135,13 +135,13 @@ func (x *Exec) memset(dst, c, n *smt.Term) {
 func (x *Exec) intrinsic(fr *frame, name string, in *Instr, a []Value) Value {
 	t := func(i int) *smt.Term { return a[i].(*smt.Term) }
 	switch {
-	case strings.HasPrefix(name, "llvm.memcpy."):
+	case strings.HasPrefix(name, "llvm.memcpy.") || name == "llvm.memcpy":
 		x.memcpy(t(0), t(1), smt.Resize(t(2), 64, false), false, "llvm.memcpy")
 		return nil
-	case strings.HasPrefix(name, "llvm.memmove."):
+	case strings.HasPrefix(name, "llvm.memmove.") || name == "llvm.memmove":
 		x.memcpy(t(0), t(1), smt.Resize(t(2), 64, false), true, "llvm.memmove")
 		return nil
-	case strings.HasPrefix(name, "llvm.memset."):
+	case strings.HasPrefix(name, "llvm.memset.") || name == "llvm.memset":
 		x.memset(t(0), t(1), smt.Resize(t(2), 64, false))
 		return nil
 	case strings.HasPrefix(name, "llvm.dbg."), strings.HasPrefix(name, "llvm.lifetime."), name == "llvm.donothing":
